@@ -592,7 +592,7 @@ def _pure_cond(e, ok_names):
     if isinstance(e, ast.Compare):
         return _pure_cond(e.left, ok_names) and all(_pure_cond(c, ok_names) for c in e.comparators)
     if isinstance(e, ast.Subscript):
-        return _pure_cond(e.value, ok_names) and isinstance(e.slice, (ast.Constant, ast.UnaryOp))
+        return _pure_cond(e.value, ok_names) and (isinstance(e.slice, (ast.Constant, ast.UnaryOp)) or (isinstance(e.slice, ast.Name) and e.slice.id in ok_names))
     if isinstance(e, ast.Tuple):
         return all(_pure_cond(x, ok_names) for x in e.elts)
     if isinstance(e, ast.BinOp) and isinstance(e.op, (ast.Add, ast.Sub)):
@@ -606,7 +606,8 @@ def _pure_cond(e, ok_names):
 
 
 def _is_boolish(e):
-    return isinstance(e, (ast.BoolOp, ast.Compare)) or (isinstance(e, ast.UnaryOp) and isinstance(e.op, ast.Not)) or \
+    # (a plain load such as `table[key][0]` named and tested in the next statement is a named condition too)
+    return isinstance(e, (ast.BoolOp, ast.Compare, ast.Subscript)) or (isinstance(e, ast.UnaryOp) and isinstance(e.op, ast.Not)) or \
         (isinstance(e, ast.Call) and ((isinstance(e.func, ast.Name) and e.func.id in ("isinstance", "issubclass", "callable", "hasattr", "cmatch", "cmatch2", "safe_eq", "in_map")) or
                                       (isinstance(e.func, ast.Attribute) and e.func.attr.startswith(("is_", "has_")))))
 
